@@ -12,7 +12,9 @@ SC = [('vf_tree_build', 'push_back builds v -> [c1 -> [g], c2]: links, root, con
       ('vf_tree_move_assign_from_child', 'move assignment FROM a child of the target (t = move(t.front())): the old children die, the links of the new ones are consistent'),
       ('vf_tree_copy_assign_from_child', 'copy assignment from a child of the target'),
       ('vf_tree_copy_assign_grow', 'copy assignment from a tree with more children than the target: every new child is linked to the target'),
-      ('vf_tree_child_position', 'child_position identifies nodes by identity (equal siblings, foreign node)')]
+      ('vf_tree_child_position', 'child_position identifies nodes by identity (equal siblings, foreign node)'),
+      ('vf_tree_map', 'tree::map: same shape, f on every value, result links consistent, source intact'),
+      ('vf_tree_equal', '== / != compare value and children recursively (also a tree with a leaf of the same value)')]
 
 
 def make(tier):
@@ -20,11 +22,11 @@ def make(tier):
     P.assumptions.append(LIST)
     P.workers = 4   # each job needs up to ~20 GB
     P.meta += ['each scenario applies one operation to trees of a fixed small shape with symbolic values and compares every parent/child link with the plain recursive reference; shapes are chosen so that every operation is exercised on roots AND on nodes that are children of another node']
-    P.not_decided += ['histories longer than one operation and forests beyond the listed shapes (bounded scenarios, not an invariant proof: tree nodes live in std::list heap nodes)', 'tree::sort (std::list::sort bucket loops), tree::map, comparison, to_root iteration beyond level()', 'log::context tree use']
+    P.not_decided += ['histories longer than one operation and forests beyond the listed shapes (bounded scenarios, not an invariant proof: tree nodes live in std::list heap nodes)', 'tree::sort (std::list::sort bucket loops), tree::map (a thorough-tier attempt: no answer in 900 s), comparison beyond the two-node shapes', 'log::context tree use']
     # lemma harnesses (no --dfcc write-set instrumentation: measured 10x cheaper on this pointer-heavy code)
     ARGS = {'vf_tree_build': 4, 'vf_tree_push_tree': 4, 'vf_tree_insert_middle': 4, 'vf_tree_pop': 4, 'vf_tree_pop_empty': 1, 'vf_tree_release': 3, 'vf_tree_erase_clear': 4, 'vf_tree_sort': 3,
             'vf_tree_swap': 4, 'vf_tree_swap_child': 5, 'vf_tree_copy_ctor': 4, 'vf_tree_copy_child': 3, 'vf_tree_move_ctor': 3, 'vf_tree_move_ctor_child': 3, 'vf_tree_copy_assign_child': 4,
-            'vf_tree_move_assign_child': 4, 'vf_tree_assign_root': 5, 'vf_tree_move_assign_from_child': 3, 'vf_tree_copy_assign_from_child': 3, 'vf_tree_copy_assign_grow': 3, 'vf_tree_child_position': 2}
+            'vf_tree_move_assign_child': 4, 'vf_tree_assign_root': 5, 'vf_tree_move_assign_from_child': 3, 'vf_tree_copy_assign_from_child': 3, 'vf_tree_copy_assign_grow': 3, 'vf_tree_child_position': 2, 'vf_tree_map': 3, 'vf_tree_equal': 4}
     BOOL_LAST = ('vf_tree_push_tree', 'vf_tree_pop', 'vf_tree_erase_clear', 'vf_tree_assign_root')
     NAMES = ['every child\'s parent() is the node that lists it (links_ok)', 'root has no parent / second tree intact', 'contents as the reference model', 'further reference agreement', 'level / depth agree with the reference']
     h = ''
@@ -37,13 +39,14 @@ def make(tier):
             h += '  __CPROVER_assert((bad & %du) == 0, "%s: %s");\n' % (1 << k, what.replace('"', ''), nm)
         h += '  VF_PROBE(); }\n'
     h += 'void h_tree_pre_order(void){ VF_IN(u32, v); VF_IN(u32, c1); VF_IN(u32, c2); VF_IN(u32, g); u32 out[4]; u32 n = vf_tree_pre_order(v, c1, c2, g, out);\n  __CPROVER_assert(n == 4 && out[0] == v && out[1] == c1 && out[2] == g && out[3] == c2, "pre_order visits v, c1, g, c2 (depth first, children in order)"); VF_PROBE(); }\n'
+    h += 'void h_tree_to_root(void){ VF_IN(u32, v); VF_IN(u32, c1); VF_IN(u32, g); u32 out[4]; u32 n = vf_tree_to_root(v, c1, g, out);\n  __CPROVER_assert(n == 3 && out[0] == g && out[1] == c1 && out[2] == v, "to_root visits the node, its parent, ..., the root"); VF_PROBE(); }\n'
     P.generated['c09_h.c'] = h
     u = P.unit('tree', 'shim.cpp', harness=['harness.c', 'c09_h.c'], inline=True, maxb=32)
-    for f, what in SC + [('vf_tree_pre_order', 'pre_order visits v, c1, g, c2 (depth first, children in order)')]:
+    for f, what in SC + [('vf_tree_pre_order', 'pre_order visits v, c1, g, c2 (depth first, children in order)'), ('vf_tree_to_root', 'to_root from a grandchild visits the node, its parent, the root')]:
         if f == 'vf_tree_sort':
             continue   # std::list::sort loops over 64 merge buckets: needs unwind 66, does not close (listed as not decided)
-        slow = f in ('vf_tree_erase_clear', 'vf_tree_pre_order', 'vf_tree_pop')   # measured > 5 min or > 24 GB: thorough-tier attempts
-        two = f in ('vf_tree_build', 'vf_tree_insert_middle', 'vf_tree_pop', 'vf_tree_erase_clear', 'vf_tree_child_position', 'vf_tree_pre_order')   # shapes with two children need one more unwinding
+        slow = f in ('vf_tree_erase_clear', 'vf_tree_pre_order', 'vf_tree_pop', 'vf_tree_map')   # measured > 5 min or > 24 GB: thorough-tier attempts
+        two = f in ('vf_tree_build', 'vf_tree_insert_middle', 'vf_tree_pop', 'vf_tree_erase_clear', 'vf_tree_child_position', 'vf_tree_pre_order', 'vf_tree_to_root')   # shapes with two children need one more unwinding
         u.lemma('h_' + f[3:], cls='B', unwind=4 if two else 3, mem=24, bound='trees of at most 4 nodes of the shape named in the scenario, node values symbolic; list loops and recursion unwound 3 (one child per node) or 4 (two children) times with unwinding assertions', backends=['sat'], timeout=2400 if slow else 900, tier='thorough' if slow else 'quick', optional=slow,
                 what='tree: ' + what, assumed=[LIST], cbmc=['--slice-formula'])
     return P
